@@ -1,8 +1,294 @@
 import HapVerif.Model.C14
 import HapVerif.Drv.Common
+/-!
+Line protocol of C14.
+
+`C14 seq <cfg> <ops> => acc=<bits>;q=<bits>;<batch>;<batch>…`
+`C14 conc <cfg> <ops>/<ops>/… => acc=<bits>;q=<nfull>.<n>;<batch>;…`   (one op group per goroutine, no swaps)
+
+* cfg: six 0/1 characters `epSlice hasA2 hasB1 hasV1 hasTCPR publish`
+* op: `S` (swap) or `kind.typ.ns.name.label.vOld.vNew.changed.data` (`-` = none); the event id is the
+  position of the op in the whole list
+* batch: `gCur|gNew|tCur|tNew|full|typed|objects|links`, data `-`/`e`/`d<k>`,
+  typed `Field:3n.5o+Field:…` (fields sorted by name), objects `add/Ingress:n0/o1,…` (slice order),
+  links `Ingress=n0/o1,n0/o2+Service=…` (resources sorted by name)
+-/
 namespace HapVerif.C14
 open HapVerif.Drv
 
-def handle (_args : List String) (_impl : String) : Verdict := bad "C14-not-implemented"
+/-! ### rendering -/
+
+def Res.str : Res → String
+  | .configMap => "ConfigMap" | .service => "Service" | .endpoints => "Endpoints"
+  | .secret => "Secret" | .pod => "Pod" | .ingress => "Ingress" | .ingressClass => "IngressClass"
+  | .gateway => "Gateway" | .gatewayClass => "GatewayClass" | .httpRoute => "HTTPRoute"
+  | .tcpRoute => "TCPRoute"
+
+def allRes : List Res :=
+  [.configMap, .service, .endpoints, .secret, .pod, .ingress, .ingressClass, .gateway,
+   .gatewayClass, .httpRoute, .tcpRoute]
+
+def Act.str : Act → String | .add => "add" | .upd => "update" | .del => "del"
+def Act.suffix : Act → String | .add => "Add" | .upd => "Upd" | .del => "Del"
+def Fam.str : Fam → String
+  | .ing => "Ingresses" | .gwA2 => "GatewaysA2" | .gwclsA2 => "GatewayClassesA2"
+  | .gwB1 => "GatewaysB1" | .gwclsB1 => "GatewayClassesB1"
+
+def allFields : List (Fam × Act) :=
+  ([Fam.ing, .gwA2, .gwclsA2, .gwB1, .gwclsB1].flatMap fun f => [Act.add, .upd, .del].map fun a => (f, a))
+
+def fieldName (fa : Fam × Act) : String := fa.1.str ++ fa.2.suffix
+
+def sortedFields : List (Fam × Act) := allFields.mergeSort (fun a b => fieldName a ≤ fieldName b)
+def sortedRes : List Res := allRes.mergeSort (fun a b => a.str ≤ b.str)
+
+def Name.str (n : Name) : String :=
+  (match n.ns with | some k => "n" ++ toString k ++ "/" | none => "") ++ "o" ++ toString n.name
+
+def dataStr : Option Nat → String
+  | none => "-" | some 0 => "e" | some k => "d" ++ toString k
+
+def orDash (s : String) : String := if s = "" then "-" else s
+
+def Entry.str (x : Entry) : String := toString x.id ++ (if x.old then "o" else "n")
+
+def typedStr (l : List Entry) : String :=
+  orDash ("+".intercalate (sortedFields.filterMap fun fa =>
+    let xs := l.filter (fun x => x.fam = fa.1 ∧ x.act = fa.2)
+    if xs.isEmpty then none else some (fieldName fa ++ ":" ++ ".".intercalate (xs.map Entry.str))))
+
+def Descr.str (d : Descr) : String := d.1.str ++ "/" ++ d.2.1.str ++ ":" ++ d.2.2.str
+
+def linksStr (l : List Link) : String :=
+  orDash ("+".intercalate (sortedRes.filterMap fun r =>
+    let xs := l.filter (fun x => x.1 = r)
+    if xs.isEmpty then none else some (r.str ++ "=" ++ ",".intercalate (xs.map (·.2.str)))))
+
+def Batch.str (b : Batch) : String :=
+  "|".intercalate [dataStr b.gCur, dataStr b.gNew, dataStr b.tCur, dataStr b.tNew,
+    (if b.full then "1" else "0"), typedStr b.typed,
+    orDash (",".intercalate (b.objects.map Descr.str)), linksStr b.links]
+
+def bitsStr (l : List Bool) : String := orDash (String.ofList (l.map fun b => if b then '1' else '0'))
+
+/-! ### parsing -/
+
+def parseBit : String → Option Bool | "0" => some false | "1" => some true | _ => none
+
+def parseBits (s : String) : Option (List Bool) :=
+  if s = "-" then some [] else s.toList.mapM fun c => if c = '0' then some false else if c = '1' then some true else none
+
+def parseOptNat (s : String) : Option (Option Nat) := if s = "-" then some none else s.toNat?.map some
+
+def parseKind : String → Option Kind
+  | "cm" => some .cm | "svc" => some .svc | "ep" => some .ep | "eps" => some .eps
+  | "secret" => some .secret | "pod" => some .pod | "ing" => some .ing | "ingcls" => some .ingcls
+  | "gwA2" => some .gwA2 | "gwclsA2" => some .gwclsA2 | "hrA2" => some .hrA2
+  | "gwB1" => some .gwB1 | "gwclsB1" => some .gwclsB1 | "hrB1" => some .hrB1
+  | "gwV1" => some .gwV1 | "gwclsV1" => some .gwclsV1 | "hrV1" => some .hrV1
+  | "tcpr" => some .tcpr | _ => none
+
+def parseTyp : String → Option EvT
+  | "c" => some .create | "u" => some .update | "d" => some .delete | "g" => some .generic | _ => none
+
+def parseOp (id : Nat) (s : String) : Option Op :=
+  if s = "S" then some .swap else
+  match s.splitOn "." with
+  | [k, t, ns, name, label, vo, vn, ch, data] => do
+    pure (.ev { id := id, kind := ← parseKind k, typ := ← parseTyp t, ns := ← parseOptNat ns,
+                name := ← name.toNat?, label := ← parseOptNat label, vOld := ← parseBit vo,
+                vNew := ← parseBit vn, changed := ← parseBit ch, data := ← parseOptNat data })
+  | _ => none
+
+def parseOpsFrom (start : Nat) (s : String) : Option (List Op) :=
+  if s = "-" ∨ s = "" then some [] else
+  ((s.splitOn ",").zipIdx start).mapM fun (t, i) => parseOp i t
+
+/-- goroutine groups separated by `/`; ids run over the concatenation -/
+def parseGroups (s : String) : Option (List (List Op)) :=
+  let r : Option (List (List Op) × Nat) :=
+    (s.splitOn "/").foldlM (init := (([] : List (List Op)), 0)) fun acc g => do
+      let ops ← parseOpsFrom acc.2 g
+      pure (acc.1 ++ [ops], acc.2 + ops.length)
+  r.map (·.1)
+
+def parseCfg (s : String) : Option Cfg :=
+  match s.toList.map (· == '1') with
+  | [a, b, c, d, e, f] => some { epSlice := a, hasA2 := b, hasB1 := c, hasV1 := d, hasTCPR := e, publish := f }
+  | _ => none
+
+def parseData (s : String) : Option (Option Nat) :=
+  if s = "-" then some none else if s = "e" then some (some 0)
+  else if s.startsWith "d" then (s.drop 1).toNat?.bind fun k => if k = 0 then none else some (some k)
+  else none
+
+def parseName (s : String) : Option Name :=
+  let nm (t : String) : Option Nat := if t.startsWith "o" then (t.drop 1).toNat? else none
+  match s.splitOn "/" with
+  | [o] => (nm o).map fun k => { ns := none, name := k }
+  | [n, o] => if n.startsWith "n" then do pure { ns := some (← (n.drop 1).toNat?), name := ← nm o } else none
+  | _ => none
+
+def parseRes (s : String) : Option Res := allRes.find? (·.str = s)
+def parseField (s : String) : Option (Fam × Act) := allFields.find? (fieldName · = s)
+
+def parseEntry (fa : Fam × Act) (s : String) : Option Entry :=
+  if s.endsWith "n" then (s.dropEnd 1).toNat?.map fun i => ⟨fa.1, fa.2, i, false⟩
+  else if s.endsWith "o" then (s.dropEnd 1).toNat?.map fun i => ⟨fa.1, fa.2, i, true⟩
+  else none
+
+def parseTyped (s : String) : Option (List Entry) :=
+  if s = "-" then some [] else
+  (s.splitOn "+").foldlM (init := []) fun acc g =>
+    match g.splitOn ":" with
+    | [f, xs] => do
+      let fa ← parseField f
+      let es ← (xs.splitOn ".").mapM (parseEntry fa)
+      pure (acc ++ es)
+    | _ => none
+
+def parseDescr (s : String) : Option Descr :=
+  match s.splitOn ":" with
+  | [h, n] =>
+    match h.splitOn "/" with
+    | [a, r] => do
+      let a ← (match a with | "add" => some Act.add | "update" => some Act.upd | "del" => some Act.del | _ => none)
+      pure (a, ← parseRes r, ← parseName n)
+    | _ => none
+  | _ => none
+
+def parseLinks (s : String) : Option (List Link) :=
+  if s = "-" then some [] else
+  (s.splitOn "+").foldlM (init := []) fun acc g =>
+    match g.splitOn "=" with
+    | [r, xs] => do
+      let r ← parseRes r
+      let ns ← (xs.splitOn ",").mapM parseName
+      pure (acc ++ ns.map fun n => (r, n))
+    | _ => none
+
+def parseBatch (s : String) : Option Batch :=
+  match s.splitOn "|" with
+  | [gc, gn, tc, tn, full, typed, objs, links] => do
+    pure { gCur := ← parseData gc, gNew := ← parseData gn, tCur := ← parseData tc, tNew := ← parseData tn,
+           full := ← parseBit full, typed := ← parseTyped typed,
+           objects := ← parseList parseDescr objs, links := ← parseLinks links }
+  | _ => none
+
+/-- `acc=…;q=…;batches` -/
+def parseImpl (s : String) : Option (List Bool × String × List Batch) :=
+  match s.splitOn ";" with
+  | a :: q :: bs =>
+    if a.startsWith "acc=" ∧ q.startsWith "q=" then do
+      pure (← parseBits (a.drop 4).toString, (q.drop 2).toString, ← bs.mapM parseBatch)
+    else none
+  | _ => none
+
+/-- canonical form of a batch whose slices were filled in an unknown order is not needed: the
+typed lists, `Objects` and each `Links[r]` are slices and the sequential order is deterministic -/
+def events (ops : List Op) : List Event := ops.filterMap fun | .ev e => some e | .swap => none
+
+/-- acceptance as observed: the i-th event was accepted iff the i-th bit is set -/
+def accObserved (ops : List Op) (bits : List Bool) : Event → Bool :=
+  let ids := ((events ops).zip bits).filterMap fun (e, b) => if b then some e.id else none
+  fun e => ids.contains e.id
+
+/-! ### concurrent run: what is checked on the observed batches -/
+
+def oracleConc (acc : Event → Bool) (groups : List (List Op)) (bs : List Batch) (nfull n : Nat) : Option String :=
+  let evs := (events groups.flatten).filter acc
+  let nong := evs.filter (·.typ ≠ .generic)
+  let allTyped := bs.flatMap (·.typed)
+  let where_ (p : Batch → Bool) : List Nat := (bs.zipIdx.filter (fun bi => p bi.1)).map (·.2)
+  -- exactly once
+  if nong.any (fun e => !(bs.any fun b => b.links.contains (linkOf e))) then some "event-lost-link"
+  else if nong.any (fun e => isFlip e && (match specEntry e with | some x => !(allTyped.contains x) | none => false)) then
+    some "class-transition-misclassified"
+  else if nong.any (fun e => match specEntry e with | some x => !(allTyped.contains x) | none => false) then some "event-lost-entry"
+  else if allTyped.any (fun x => allTyped.count x ≠ 1) then some "event-duplicated"
+  else if allTyped.any (fun x => !(nong.any fun e => specEntry e == some x)) then some "event-phantom-entry"
+  else if nong.any (fun e => !isFlip e && !(bs.any fun b => b.objects.contains (specDescr e))) then some "event-lost-description"
+  else if nong.any (fun e => isFlip e && !(bs.any fun b => b.objects.any fun d => d.2 == linkOf e)) then some "event-lost-description"
+  else if bs.any (fun b => b.links.any (fun x => b.links.count x ≠ 1) || b.objects.any (fun x => b.objects.count x ≠ 1)) then
+    some "event-duplicated-link"
+  else if bs.any (fun b => b.links.any fun x => !(nong.any fun e => linkOf e == x)) then some "event-phantom-link"
+  else if bs.any (fun b => b.objects.any fun x => !(nong.any fun e => specDescr e == x || (isFlip e && linkOf e == x.2))) then
+    some "event-phantom-description"
+  -- an event whose link and description are unique among the sent events lands in ONE batch, whole
+  else
+    let uniq := nong.filter fun e => (nong.filter fun e' => linkOf e' == linkOf e).length = 1
+    if uniq.any (fun e =>
+        let wl := where_ (fun b => b.links.contains (linkOf e))
+        let wd := where_ (fun b => b.objects.any fun d => d.2 == linkOf e)
+        let we := match specEntry e with | some x => where_ (fun b => b.typed.contains x) | none => wl
+        wl.length ≠ 1 || wd ≠ wl || we ≠ wl) then some "event-split-across-batches"
+    -- per-goroutine (per-kind informer) order is kept
+    else if groups.any (fun g =>
+        let idx := ((events g).filter (fun e => acc e && uniq.any (·.id == e.id))).filterMap fun e =>
+          (where_ (fun b => b.links.contains (linkOf e))).head?
+        !(idx.zip (idx.drop 1)).all fun (a, b) => a ≤ b) then some "event-reordered"
+    else if !checkChain none none bs then some "configmap-chain-broken"
+    else if bs.any (fun b => (match b.gNew with | some d => !(evs.any fun e => setsCm true e && e.data == some d) | none => false)
+                          || (match b.tNew with | some d => !(evs.any fun e => setsCm false e && e.data == some d) | none => false)) then
+      some "configmap-data-wrong"
+    else
+      let fin (g : Bool) : Option Nat := bs.foldl (fun cur b => pick (if g then b.gNew else b.tNew) cur) none
+      let want (g : Bool) : Option Nat := (evs.filter (setsCm g)).getLast?.bind (·.data)
+      if ((want true).isSome && fin true ≠ want true) || ((want false).isSome && fin false ≠ want false) then
+        some "configmap-final-data-wrong"
+      else if bs.any (·.full) ≠ evs.any (fun e => e.typ = .generic || e.kind.full) then some "fullsync-flag-wrong"
+      else if n ≠ evs.length || nfull ≠ (evs.filter (·.kind.full)).length then some "notify-wrong"
+      else if nong.any (fun e => isFlip e && !(bs.any fun b => b.objects.contains (specDescr e))) then
+        some "class-transition-described-as-update"
+      else none
+
+def sortEntries (l : List Entry) : List String := (l.map fun x => fieldName (x.fam, x.act) ++ ":" ++ x.str).mergeSort (· ≤ ·)
+
+def handle (args : List String) (impl : String) : Verdict :=
+  match args with
+  | ["seq", cfg, opss] =>
+    match parseCfg cfg, parseOpsFrom 0 opss with
+    | some c, some ops =>
+      let r := run c ops
+      let m := ";".intercalate (("acc=" ++ bitsStr ((events ops).map (accepts c))) :: ("q=" ++ bitsStr r.2.q) ::
+                r.1.map Batch.str)
+      if impl = "PANIC" then { model := m, agree := false, oracle := some "panic" } else
+      match parseImpl impl with
+      | some (bits, q, bs) =>
+        let accepted := (events ops).filter (accepts c)
+        { model := m, agree := m = impl,
+          oracle := match parseBits q with
+            | some q => oracle (accObserved ops bits) ops bs q
+            | none => some "unparsable-output",
+          trivial := accepted.length < 2 || !(ops.contains .swap) }
+      | none => { model := m, agree := false, oracle := some "unparsable-output" }
+    | _, _ => bad "parse"
+  | ["conc", cfg, gs] =>
+    match parseCfg cfg, parseGroups gs with
+    | some c, some groups =>
+      let evs := events groups.flatten
+      let accepted := evs.filter (accepts c)
+      let want := sortEntries (accepted.filterMap entryOf)
+      let nfull := (accepted.filter (·.kind.full)).length
+      let m := "acc=" ++ bitsStr (evs.map (accepts c)) ++ ";q=" ++ toString nfull ++ "." ++ toString accepted.length ++
+               ";entries=" ++ toString want.length
+      if impl = "PANIC" then { model := m, agree := false, oracle := some "panic" } else
+      match parseImpl impl with
+      | some (bits, q, bs) =>
+        let got := sortEntries (bs.flatMap (·.typed))
+        let nong := accepted.filter (·.typ ≠ .generic)
+        let sameSet {α} [BEq α] (a b : List α) : Bool := a.all b.contains && b.all a.contains
+        let qq := (q.splitOn ".").map String.toNat?
+        { model := m,
+          agree := bits = evs.map (accepts c) && qq = [some nfull, some accepted.length] && got = want
+                   && sameSet (bs.flatMap (·.links)) (nong.map linkOf)
+                   && sameSet (bs.flatMap (·.objects)) (nong.map descrOf),
+          oracle := match qq with
+            | [some nf, some n] => oracleConc (accObserved groups.flatten bits) groups bs nf n
+            | _ => some "unparsable-output",
+          trivial := accepted.length < 2 || bs.length < 2 }
+      | none => { model := m, agree := false, oracle := some "unparsable-output" }
+    | _, _ => bad "parse"
+  | _ => bad "C14"
 
 end HapVerif.C14
